@@ -26,6 +26,7 @@ WRITER_PATTERNS = [
     (r"std::sync::(rwlock|mutex)::.*::(write|lock)$", "lock"),
     (r"core::sync::atomic::Atomic.*::(store|swap|fetch_\w+|compare_exchange\w*|compare_and_swap)$", "atomic write"),
     (r"std::thread::local::LocalKey::<.*>::(with|set|replace|with_borrow_mut)$", "thread-local state"),
+    (r"(std::sync::once_lock::OnceLock|core::cell::once::OnceCell|std::sync::OnceLock|core::cell::OnceCell)::<.*>::(set|get_or_init|get_or_try_init|take|try_insert|get_mut_or_init)$", "once-cell written during evaluation (a cache filled by the first call)"),
     (r"std::sync::mpsc::", "channel"),
     (r"std::sync::(condvar|barrier)", "condvar/barrier"),
     (r"parking_lot::", "parking_lot primitive"),
